@@ -522,13 +522,18 @@ fn run_local_worker(worker: &Worker, id: usize, parker: Parker, abort_signal: Si
         loop {
             // Signal barrier: park until notified to continue or terminate.
 
+            // The message count of this thread must be folded into the global
+            // count *before* the worker is marked as inactive, otherwise the
+            // executor thread could observe an idle pool and read a global
+            // count that lacks the contribution of this worker.
+            update_msg_count();
+
             // Try to deactivate the worker.
             if pool_manager.try_set_worker_inactive(id) {
                 // No need to call `begin_worker_search()`: this was done by the
                 // thread that unparked the worker.
                 #[cfg(feature = "verif-hooks")]
                 crate::verif_hooks::delay(crate::verif_hooks::site::W1);
-                update_msg_count();
                 #[cfg(feature = "verif-hooks")]
                 crate::verif_hooks::delay(crate::verif_hooks::site::W2);
                 parker.park();
@@ -544,7 +549,6 @@ fn run_local_worker(worker: &Worker, id: usize, parker: Parker, abort_signal: Si
                 pool_manager.set_all_workers_inactive();
                 #[cfg(feature = "verif-hooks")]
                 crate::verif_hooks::delay(crate::verif_hooks::site::W4);
-                update_msg_count();
                 #[cfg(feature = "verif-hooks")]
                 crate::verif_hooks::delay(crate::verif_hooks::site::W5);
                 executor_unparker.unpark();
